@@ -125,6 +125,10 @@ func main() {
 	o.def("lint_threshold", "string * string * string", thresholdOf(findFunc(p, "", "actionLint"), strs))
 	o.def("ci_threshold", "string * string * string", thresholdOf(findFunc(p, "", "actionCI"), strs))
 
+	// ---- Summary.CountBySeverity: every report of the summary counts once, under its own severity
+	o.b.WriteString("(* shape of reporter.Summary.CountBySeverity *)\n")
+	o.def("count_by_severity_shape", "string", cs(countShape(loadPkg(filepath.Join(*srcDir, "internal", "reporter")))))
+
 	// ---- main: error => os.Exit(code)
 	mf := findFunc(p, "", "main")
 	if mf == nil {
@@ -158,6 +162,87 @@ func main() {
 	o.def("main_exit_code", "Z", "("+code+")%Z")
 
 	o.write(*outPath, *jsonPath)
+}
+
+// countShape recognises
+//     m := map[checks.Severity]int{}
+//     for _, R := range s.Reports() | s.reports {
+//         [ if _, ok := m[R.Problem.Severity]; !ok { m[R.Problem.Severity] = 0 } ]
+//         m[R.Problem.Severity]++   |   m[R.Problem.Severity] += 1
+//     }
+//     return m
+// and nothing else inside the loop (no filter, no continue, no other key, no weight).
+func countShape(p *pkgFiles) string {
+	fd := findFunc(p, "Summary", "CountBySeverity")
+	if fd == nil {
+		fatal("Summary.CountBySeverity not found")
+	}
+	var loop *ast.RangeStmt
+	mapVar := ""
+	for _, st := range fd.Body.List {
+		switch x := st.(type) {
+		case *ast.AssignStmt:
+			if len(x.Lhs) == 1 && len(x.Rhs) == 1 {
+				r := oneLine(src(x.Rhs[0]))
+				if strings.HasPrefix(r, "map[checks.Severity]int") || strings.HasPrefix(r, "make(map[checks.Severity]int") {
+					mapVar = selName(x.Lhs[0])
+					continue
+				}
+			}
+			fatal("CountBySeverity: statement `%s` at %s not understood", oneLine(src(st)), pos(st))
+		case *ast.RangeStmt:
+			if loop != nil {
+				fatal("CountBySeverity: two loops")
+			}
+			loop = x
+		case *ast.ReturnStmt:
+			if len(x.Results) != 1 || oneLine(src(x.Results[0])) != mapVar {
+				fatal("CountBySeverity: return at %s does not return the map", pos(x))
+			}
+		default:
+			fatal("CountBySeverity: statement `%s` at %s not understood", oneLine(src(st)), pos(st))
+		}
+	}
+	if loop == nil || mapVar == "" {
+		fatal("CountBySeverity: no map / loop found")
+	}
+	rx := oneLine(src(loop.X))
+	if rx != "s.Reports()" && rx != "s.reports" {
+		fatal("CountBySeverity: loop at %s ranges over %s", pos(loop), rx)
+	}
+	if loop.Value == nil {
+		fatal("CountBySeverity: loop at %s has no value variable", pos(loop))
+	}
+	key := mapVar + "[" + selName(loop.Value) + ".Problem.Severity]"
+	incs := 0
+	for _, st := range loop.Body.List {
+		switch x := st.(type) {
+		case *ast.IncDecStmt:
+			if x.Tok != token.INC || oneLine(src(x.X)) != key {
+				fatal("CountBySeverity: `%s` at %s not understood", oneLine(src(st)), pos(st))
+			}
+			incs++
+		case *ast.AssignStmt:
+			if x.Tok == token.ADD_ASSIGN && len(x.Lhs) == 1 && oneLine(src(x.Lhs[0])) == key && len(x.Rhs) == 1 && oneLine(src(x.Rhs[0])) == "1" {
+				incs++
+				continue
+			}
+			fatal("CountBySeverity: `%s` at %s not understood", oneLine(src(st)), pos(st))
+		case *ast.IfStmt:
+			// only the zero initialisation of a missing key is allowed
+			ok := x.Init != nil && oneLine(src(x.Init)) == "_, ok := "+key && oneLine(src(x.Cond)) == "!ok" && x.Else == nil &&
+				len(x.Body.List) == 1 && oneLine(src(x.Body.List[0])) == key+" = 0"
+			if !ok {
+				fatal("CountBySeverity: conditional `%s` at %s not understood (only the zero initialisation of a missing key is expected)", oneLine(src(x.Cond)), pos(x))
+			}
+		default:
+			fatal("CountBySeverity: `%s` at %s not understood", oneLine(src(st)), pos(st))
+		}
+	}
+	if incs != 1 {
+		fatal("CountBySeverity: the counter is incremented %d times per report", incs)
+	}
+	return "every-report-counts-once-under-its-own-severity"
 }
 
 // package level `var x = "lit"` / `const x = "lit"` string identifiers
@@ -392,22 +477,23 @@ func thresholdOf(fd *ast.FuncDecl, strs map[string]string) string {
 		}
 		return true
 	})
-	if bsVar == "" {
-		fatal("%s: no `B := summary.CountBySeverity()` found", fn)
-	}
 	var loop *ast.RangeStmt
 	for _, st := range fd.Body.List {
 		if rs, ok := st.(*ast.RangeStmt); ok {
-			if id, ok := rs.X.(*ast.Ident); ok && id.Name == bsVar {
+			direct := false
+			if ce, ok := rs.X.(*ast.CallExpr); ok && oneLine(src(ce.Fun)) == "summary.CountBySeverity" {
+				direct = true // `for s, c := range summary.CountBySeverity()`
+			}
+			if id, ok := rs.X.(*ast.Ident); (ok && bsVar != "" && id.Name == bsVar) || direct {
 				if loop != nil {
-					fatal("%s: two loops over %s", fn, bsVar)
+					fatal("%s: two loops over the CountBySeverity map", fn)
 				}
 				loop = rs
 			}
 		}
 	}
 	if loop == nil {
-		fatal("%s: no top-level `for ... := range %s` loop", fn, bsVar)
+		fatal("%s: no top-level `for ... := range <summary.CountBySeverity()>` loop", fn)
 	}
 	if loop.Key == nil {
 		fatal("%s: loop at %s has no key variable", fn, pos(loop))
